@@ -66,7 +66,10 @@ def order(ctx):
             bad = bad or "after-hooks run without a dispatch"
         for i in rb + ra:
             e = evs[i]
-            if e[1] != ("hookset", ("mnem", ("instr",))) or e[2] != ("mnem", ("instr",)):
+            hs_ = e[1]
+            while hs_[0] in ("deref", "w") and isinstance(hs_[1], tuple):
+                hs_ = hs_[1]  # the same hook set seen through a reference (`hooks.as_ref()`)
+            if hs_ != ("hookset", ("mnem", ("instr",))) or e[2] != ("mnem", ("instr",)):
                 bad = bad or "runner started with %s / %s" % (A.show(e[1]), A.show(e[2]))
         # propagation
         for i in pb_done + pa_done:
@@ -287,13 +290,31 @@ def runner(ctx):
         except KeyError as e:
             ck.violation("C12.chain", "api=" + api, str(e))
             continue
+        # the vector(s) a registration ends up pushing to: the API is interpreted (private helpers inline) and every
+        # Vec::push / insert / extend on a field of a Hook record is collected
         fields = set()
-        for blk in b["blocks"]:
-            for st in blk["s"]:
-                if st[0] == "a" and st[2][0] == "ref" and st[2][1] == "mut":
-                    fn = [e[2] for e in st[2][2][1] if isinstance(e, list) and e[0] == "f" and e[3] == HOOK]
-                    if fn:
-                        fields.add(fn[-1])
+
+        def icpt_reg(I, path, frame, t, name, args, fields=fields):
+            short = name.rsplit("::", 1)[1].split("::<")[0] if "::" in name else name
+            if short in ("push", "insert", "extend", "append", "push_back") and name.startswith("std::vec::Vec") and args and args[0][0] == "ref":
+                fn = fieldnames(args[0][1])
+                if fn:
+                    fields.add(fn[-1])
+                return [(A.UNIT, path)]
+            return None
+        try:
+            Ir = A.Interp(facts, intercept=icpt_reg)
+            rargs = [P.self_ref(True)] + [("param", i) for i in range(2, b["argc"] + 1)]
+            list(Ir.run(b, rargs, A.Path()))
+        except Exception as e:  # noqa
+            fields.add("?%s" % e)
+        if not fields:
+            for blk in b["blocks"]:
+                for st in blk["s"]:
+                    if st[0] == "a" and st[2][0] == "ref" and st[2][1] == "mut":
+                        fn = [e[2] for e in st[2][2][1] if isinstance(e, list) and e[0] == "f" and e[3] == HOOK]
+                        if fn:
+                            fields.add(fn[-1])
         pushed[nm] = fields
     for nm in ("before", "after"):
         inst = "phase=" + nm
@@ -328,7 +349,12 @@ def guard(ctx):
                     if fn and fn[-1] == ("mnemonic_hooks", "state::hooks::HookProcessor"):
                         mut = True
         if mut:
-            targets.append(b)
+            # judged at the functions the rest of the crate can call: a module-private helper holding the mutation is
+            # reached through them (and interpreted inline there)
+            from . import C10
+            for ek in C10.push_entries(facts, k):
+                if facts.bodies[ek] not in targets:
+                    targets.append(facts.bodies[ek])
     try:
         hs = facts.method(AXE, "handle_syscalls_impl")
         if hs not in targets:
